@@ -55,7 +55,8 @@ def work_skeleton(task):
     lib.load("nojit")
     from checks.c03 import memoise_solver
     memoise_solver()
-    (limit, firsts, draws) = task
+    (limit, firsts, draws) = task[:3]
+    monitors = task[3] if len(task) > 3 else ["C09"]
     acc = Acc()
     d = ml.get_driver("skel", 0)
     names = sorted(SK_ALPHA)
@@ -87,8 +88,12 @@ def work_skeleton(task):
                     if seq[r] == seq[r - 1]:
                         want = r + 1
                         break
-                for (msg, sig) in ml.MONITORS["C09"](rec):
-                    acc.fail(case, f"relabel outputs {list(seq)}, limit {limit}: " + msg, sig)
+                for mname in monitors:
+                    for (msg, sig) in ml.MONITORS[mname](rec):
+                        if sig == "skip":
+                            acc.count("monitor_skips", msg.strip("_"))
+                            continue
+                        acc.fail(dict(case, monitors=list(monitors)), f"relabel outputs {list(seq)}, limit {limit}: " + msg, sig)
                 got = tuple(ml.stacked_labels(rec))
                 if n <= limit and n >= 1 and got != tuple(SK_ALPHA[seq[n - 1]]):
                     acc.fail(case, f"relabel outputs {list(seq)}, limit {limit}: returned labels {got} are not round {n}'s output")
@@ -129,6 +134,6 @@ def replay(ctx, case):
     if case.get("kind") == "skeleton":
         from vlib import lib
         lib.load("nojit")
-        ctx.take(work_skeleton((case["limit"], [case["sequence"][0]], (case["draw"],))))
+        ctx.take(work_skeleton((case["limit"], [case["sequence"][0]], (case["draw"],), case.get("monitors", ["C09"]))))
         return
     ml.replay_case(ctx, case, MONS, conform=True)
